@@ -390,3 +390,9 @@ func (k *Kernel) SockFaulted(s *Sock) bool { return s != nil && s.file != nil &&
 
 // UDPInjectCount is the number of datagrams injected so far (the next one gets this plus one as its id).
 func (k *Kernel) UDPInjectCount() int { return k.nextDgram }
+
+// SameFile reports whether two descriptor numbers refer to the same open file description.
+func (k *Kernel) SameFile(a, b int) bool {
+	ea, eb := k.fds[a], k.fds[b]
+	return ea != nil && eb != nil && ea.file == eb.file
+}
